@@ -16,7 +16,8 @@ DECIDED = ["R13a rollback runs to the end (loop-exit classification)",
            "R13d displaced alias bindings are recorded (DOM)",
            "R13e nothing reachable from rollback records undo commands",
            "R13f undo commands are recorded in the order of their mutations",
-           "R11a key-value store and indexes are co-updated with the per-(value, id) primitives, forward and in the rollback arms (shared with C11)"]
+           "R11a key-value store and indexes are co-updated with the per-(value, id) primitives, forward and in the rollback arms (shared with C11)",
+           "R09d insert_or_replace reports None only after an insertion (shared with C09)"]
 UNDECIDED = ["equality of the database state before the transaction and after rollback (needs execution)",
              "correct payload of each pushed command (old value vs new value)"]
 
@@ -320,4 +321,7 @@ def run(ctx):
     # the index entries a rollback restores are exactly those the forward step removed (R11a, shared with C11)
     from rules import C11
     C11.index_maintenance_rule(ctx)
+    # the index update / undo command is chosen by what insert_or_replace reports (R09d, shared with C09)
+    from rules import C09
+    C09.insert_or_replace_contract_rule(ctx)
     return 0
